@@ -17,7 +17,7 @@ META = {
                   "refused with prior registrations intact), parse()/parse_observable() must resolve exactly accordingly (also when a parse "
                   "attempt precedes the registration), and registered custom objects must round-trip and version. Type-name and 2.1 "
                   "property-name rules are decided for all strings by regex inclusion.",
-    "level_text_more": 'Also: reference-named custom properties (names ending in _ref/_refs with 1..4 underscores vs look-alikes) x 6 property types x 4 kinds x 2 versions: refused iff the type is not a (list of) reference property, registry unchanged on refusal. A marking definition\'s definition in 7 forms (incl. an instance of another registered marking class) is refused or is an instance of the class registered for definition_type.',
+    "level_text_more": 'Also: reference-named custom properties (names ending in _ref/_refs with 1..4 underscores vs look-alikes) x 6 property types x 4 kinds x 2 versions: refused iff the type is not a (list of) reference property, registry unchanged on refusal. A marking definition\'s definition in 7 forms (incl. an instance of another registered marking class) is refused or is an instance of the class registered for definition_type. Rounds 5-6: registration histories also parse without naming a version (after earlier detections of both versions).',
     "level_note": "Histories are selector-enumerated on the live registries (restored after each). Decorator class-body __init__ hooks, "
                   "id_contrib_props and extension toplevel properties are outside the claim. Open finding C19-propname-chars excludes property "
                   "names that start with a-z but break the rest of the naming rule.",
